@@ -412,11 +412,7 @@ pub fn run(toks: &[&str]) -> String {
             let free_after = r.free().unwrap_or(0);
             if free_after!=free_before { r.notes.push(format!("refused op {} at step {} changed free {}->{}",op,step,free_before,free_after)); }
         }
-        match catch_unwind(AssertUnwindSafe(|| r.check_all(step,&touched))) {
-            Ok(Ok(())) => {},
-            Ok(Err(e)) => { fail = Some(format!("{} [step {} op {} res {}]",e,step,op,res)); break; },
-            Err(_) => { fail = Some(format!("C12 observation panicked [step {} op {}]",step,op)); break; }
-        }
+        // structure first: a broken allocation structure is the root cause of whatever the observations then show
         if do_fsck {
             match catch_unwind(AssertUnwindSafe(|| fsck_alpha(&mut r))) {
                 Ok(Some(a)) => {
@@ -438,6 +434,11 @@ pub fn run(toks: &[&str]) -> String {
                 Ok(None) => {},
                 Err(_) => { fail = Some(format!("C03 fsck reader panicked [step {} op {}]",step,op)); break; }
             }
+        }
+        match catch_unwind(AssertUnwindSafe(|| r.check_all(step,&touched))) {
+            Ok(Ok(())) => {},
+            Ok(Err(e)) => { fail = Some(format!("{} [step {} op {} res {}]",e,step,op,res)); break; },
+            Err(_) => { fail = Some(format!("C12 observation panicked [step {} op {}]",step,op)); break; }
         }
         // C04: put followed by delete restores free (checked when the generator emits D right after P of the same path)
         let tl = trace_line(&mut r,&res);
